@@ -230,6 +230,14 @@ def run(project, chk):
                 accept = {f"{bt}.is_valid", f"{bt}.rgb is not None", f"{bt}._rgb is not None"}
                 if isinstance(base, ast.Attribute) and base.attr in ("text", "bg") and sc.class_of(base.value) == PAIR_CLS:
                     accept.add(f"{norm_text(base.value)}.is_valid")
+                # a local that abbreviates an attribute chain (text = self.text): the guards of what it abbreviates count too
+                from sa.resolve import local_aliases, unalias
+                ub = unalias(base, local_aliases(fi.node))
+                if norm_text(ub) != bt:
+                    ubt = norm_text(ub)
+                    accept |= {f"{ubt}.is_valid", f"{ubt}.rgb is not None", f"{ubt}._rgb is not None"}
+                    if isinstance(ub, ast.Attribute) and ub.attr in ("text", "bg") and sc.class_of(ub.value) == PAIR_CLS:
+                        accept.add(f"{norm_text(ub.value)}.is_valid")
                 st = G.get(cnode.id)
                 # the attribute may be tested in the same `and` chain: literal established before this cond node
                 ok = implied(st, lambda alt: any((t, True) in alt for t in accept))
@@ -237,6 +245,21 @@ def run(project, chk):
                 parents = [p for p in own_nodes(fi.node) if any(ch is node_ast for ch in ast.iter_child_nodes(p))]
                 par = parents[0] if parents else None
                 harmless = isinstance(par, ast.Compare) and isinstance(par.ops[0], (ast.Is, ast.IsNot)) or isinstance(par, ast.Return)
+                if not harmless and isinstance(par, ast.Assign) and len(par.targets) == 1 and isinstance(par.targets[0], ast.Name) and par.value is node_ast:
+                    # copied into a local: harmless if every use of that local sits under `<local> is not None` (or is itself a None test / a return)
+                    v = par.targets[0].id
+                    one_def = sum(1 for x in own_nodes(fi.node) if isinstance(x, ast.Name) and x.id == v and isinstance(x.ctx, ast.Store)) == 1
+                    uses_ok = one_def
+                    for u in own_nodes(fi.node):
+                        if not (isinstance(u, ast.Name) and u.id == v and isinstance(u.ctx, ast.Load)) or not uses_ok:
+                            continue
+                        up = next((p for p in own_nodes(fi.node) if any(ch is u for ch in ast.iter_child_nodes(p))), None)
+                        if isinstance(up, ast.Compare) and isinstance(up.ops[0], (ast.Is, ast.IsNot)) or isinstance(up, ast.Return):
+                            continue
+                        un = next((n for n in cfg.nodes for e in node_exprs(n) if any(x is u for x in ast.walk(e))), None)
+                        ust = G.get(un.id) if un is not None else None
+                        uses_ok = un is not None and implied(ust, lambda alt: (f"{v} is not None", True) in alt or (f"{v} is None", False) in alt or any((t, True) in alt for t in accept))
+                    harmless = uses_ok
                 chk.check(ok or harmless, "N1", fi.short, norm_text(par if par is not None else node_ast)[:120], project.loc(mod, node_ast),
                           f"{norm_text(node_ast)} is used only where {sorted(accept)[0]} (or its pair's is_valid) holds on every path",
                           how=f"guard literals common to all paths: {sorted(t for t, v in common_literals(st) if v)}",
